@@ -15,4 +15,20 @@ PROPS = {
         "trusted": ["the extractor's sweeps of all 2^32 words (filter, from_ckc, is_blank, accessor factorisation) are complete"],
         "assumptions": ["mask/shift field readers are hand-modelled formulas; the extractor compares them with the crate on all 2^32 words"],
     },
+    "C18": {
+        "technique": "Lean 4 kernel evaluation (decide) over the regenerated deck, preset and slot tables + general lemma mem_combos; Deck::get by a general theorem over all indices",
+        "level_text": "Machine-checked Lean 4 theorems over the tables regenerated from the compiled crate: the deck equals the documented order and holds each card exactly once; Deck.get is blank for EVERY index >= 52 (general theorem over Nat); each preset table equals the independently specified list of combinations; the three slot tables equal combos 2 (range 4), combos 5 (range 6), combos 5 (range 7), which by mem_combos is every strictly increasing tuple exactly once.",
+        "level_note": "Trusts: Lean kernel; rustc; extractor; gen_lean.py. Deck::get's bounds test is hand-modelled (one line) and compared with the crate on 0..=60, all 2^k and 2^k+-1, usize::MAX and seeded indices.",
+    },
+    "C14": {
+        "technique": "Lean 4 kernel evaluation over the regenerated from_ckc graph (all 2^32 words) and bit tables + general lemma for the default arm of the table model",
+        "level_text": "Machine-checked Lean 4 theorems: the bit deck and the 52 bit constants are 2^(51-i) in deck order; word->bit is that assignment on the 52 cards and 0 on EVERY other word (general lemma over the graph dumped from all 2^32 words); bit->word inverts it on the 52 card bits and is blank on every other number (theorem about the exact-match-table model); round trips both ways.",
+        "level_note": "Trusts: Lean kernel; rustc; extractor sweeps; gen_lean.py. The default arm of from_binary_card on the 2^64 domain is tied to the crate by sampling only (0, 64 single bits, all 2,016 two-bit values, 2^k+-1, card|overflow mixes, seeded values) - stated as partial in DESIGN.md.",
+        "assumptions": ["from_binary_card is an exact-match table with default blank off the 65 dumped points (sampled on 2^64, not swept)"],
+    },
+    "C20": {
+        "technique": "Lean 4 kernel evaluation over 52 cards x 8 mark combinations + arithmetic (omega) for the order clauses + bit-level general lemma for words < 2^29",
+        "level_text": "Machine-checked Lean 4 theorems: the flag constants are bits 29, 30, 31; on all 52 cards x 8 mark combinations marking equals OR-ing m<<29, all field accessors (regenerated graphs) read the same, marking is idempotent, stripping returns the card (also after any further marks); the three order clauses hold for all 52x8x52x8 combinations by arithmetic from those facts; stripping and domination also proved for ANY word below 2^29.",
+        "level_note": "Trusts: Lean kernel; rustc; extractor; gen_lean.py. The four one-line flag functions are hand-modelled and compared with the crate on all 416 marked cards and seeded marked words.",
+    },
 }
